@@ -4,7 +4,7 @@ from __future__ import annotations
 import re
 
 from .. import calg, cstmt, jmodel as J
-from ..cskel import Skel
+from ..cskel import Skel, OPEN, CLOSE
 
 EXPLANATION = (
     "On the C++ of cvode/src/naunet.cpp.j2 specialised per method and the two odeint files (statement parser, no compilation): R1 every status "
@@ -29,12 +29,18 @@ OD = "naunet/templates/odeint/src/naunet.cpp.j2"
 ODE = "naunet/templates/odeint/src/naunet_ode.cpp.j2"
 
 
+def _ctext(sk, s):
+    """C text of a piece of the skeleton: a `{% set %}` emits nothing, a `{{ .. }}` is one opaque token."""
+    s = re.sub(f"{OPEN}(\\d+){CLOSE}", lambda m: " " if sk.marks[int(m.group(1))][0] in ("set", "setblock") else " __HOLE__ ", s)
+    return sk.plain(s)
+
+
 def _body(ctx, rel, cfg, fname):
     sk = Skel(J.flatten(ctx.tree, rel, cfg))
     fs = sk.func(fname)
     if not fs:
         return None, None
-    text = sk.plain(fs[0].body)
+    text = _ctext(sk, fs[0].body)
     try:
         return cstmt.parse_body(text), text
     except cstmt.CStmtError as ex:
